@@ -34,6 +34,22 @@ One case = one *fault history* followed by HEAL and a QUIET PERIOD:
                   TAIL x raftMaxTimeout after everything below held for the first time (stability), or when the
                   period is used up.
 
+  restarts        (`kill` = kill -9, the peers are not told; `restart` = new process, it connects again and the peers
+                  get a second onNodeConnected)
+                  * a READ-ONLY node loses everything and comes back (kind `observer_restart`: confirmed and caught
+                    up / lagging / in the middle of a multi-chunk snapshot transfer; leader unchanged or leadership
+                    changing around it; also an event of random histories) - always safe, observers never count;
+                  * VOTERS with journal + dump file (the C06 setting) are killed and restarted at any time (kind
+                    `voter_restart_journal`, and an event of random histories that run with `journal`): they keep
+                    term, vote and log;
+                  * a STATELESS voter restart appears ONLY in kind `voter_restart_leader_stays`: exactly one follower
+                    F (never the leader) comes back empty (default conf) or with an older dump file only, at a
+                    moment when it has confirmed entries to the current leader; the leader stays connected to the
+                    other voters, F is reconnected at once and NO fault follows the restart, so no election can
+                    succeed and nothing committed can be lost through what F forgot.  It is deliberately NOT part of
+                    random histories and never combined with a later leader change: replicas could then
+                    legitimately differ (that needs the journal premise of C06/C07).
+
 Monitors = the property statement, read through public observations only (`_isLeader()`, `_getLeader()`,
 callbacks, `raftLastApplied`, the free state machine's list `obj.log`), evaluated at the END of the quiet period
 (the messages on the wire are consulted only to choose the detail suffix of a signature):
@@ -57,7 +73,9 @@ callbacks, `raftLastApplied`, the free state machine's list `obj.log`), evaluate
 Virtual time inside one tick: see Hist._guard (the only place where the harness touches a clock by itself).
 Reads besides the public API: `_getTerm()` (coverage only: stale leader at heal time) and the log end through the
 Sim helper `sim.log_of(i)` (COVERAGE classification only: which of the connected voters has the longer log / the
-newer last term at heal time).  No oracle uses either.
+newer last term at heal time) and, when a node is killed / reconnected, the leader's private
+`_SyncObj__raftMatchIndex` via `sim.P` and `sim.last_index` (COVERAGE classification only: was the restarted node
+confirmed with an unchanged leader, is the leader's matchIndex beyond what the node has left).  No oracle uses any of these.
 """
 import hashlib
 import json
@@ -81,6 +99,7 @@ HERE = os.path.dirname(os.path.abspath(__file__))
 CORPUS = os.path.join(os.path.dirname(os.path.dirname(HERE)), "corpus", "c05")
 DTS = [0.0, 0.0009765625, 0.03125, 0.0625, 0.0625, 0.125, 0.125, 0.25, 0.5, 1.0, 2.0]
 BIG = 2 ** 16
+_COUNTER = __import__("itertools").count()
 SPIN_DT = 0.0009765625     # virtual cost of one useless send inside the leader's send loop, see Hist._guard
 SEND_CAP = 400000
 
@@ -110,14 +129,22 @@ class Hist(object):
         self.A = self.V + self.O
         conf = dict(p.get("conf") or {})
         per = {}
-        if p.get("dumpfile"):
+        self.filedir = None
+        jdir = None
+        if p.get("dumpfile") or p.get("journal"):
             if workdir is None:
-                raise RuntimeError("dump-file history needs a work directory")
+                raise RuntimeError("a history with dump files / journals needs a work directory")
             conf["useFork"] = False
             tag = hashlib.sha1(json.dumps(p, sort_keys=True).encode()).hexdigest()[:12]
-            for i in self.A:
-                per[i] = {"fullDumpFile": os.path.join(workdir, "%s-%s.dump" % (tag, i))}
-        self.sim = simmod.Sim(repo, self.V, observers=self.O, conf=conf, seed=p["seed"], per_node_conf=per)
+            self.filedir = os.path.join(workdir, "%s-%d-%d" % (tag, os.getpid(), next(_COUNTER)))
+            os.makedirs(self.filedir)
+            if p.get("journal"):
+                jdir = self.filedir                  # voters: journal + dump file (the C06 setting); observers: memory
+            else:
+                for i in self.A:
+                    per[i] = {"fullDumpFile": os.path.join(self.filedir, "%s.dump" % i)}
+        self.sim = simmod.Sim(repo, self.V, observers=self.O, conf=conf, seed=p["seed"], per_node_conf=per,
+                              journal_dir=jdir, dump=bool(jdir))
         self.rng = _random.Random("c05/%r" % (p["seed"],))
         self.events = []
         self.hold = set()
@@ -128,7 +155,57 @@ class Hist(object):
         self.notes = {}
         self.down, self.C, self.CV, self.CO = [], list(self.A), list(self.V), list(self.O)
         self.spins = 0
+        self.kills = []            # coverage records of kill / restart / reconnect (see _note_kill)
+        self.pending = {}          # restarted node -> its record, until it is connected to a leader again
         self._guard()
+
+    def close(self):
+        """release files of journaled / dump-file histories"""
+        if self.filedir is None:
+            return
+        s = self.sim
+        for o in list(s.objs.values()) + [o for o in getattr(s, "dead_all", [])]:
+            try:
+                o._doDestroy()
+            except Exception:
+                pass
+        import shutil
+        shutil.rmtree(self.filedir, ignore_errors=True)
+
+    def alive(self, i):
+        return i in self.sim.objs
+
+    def _note_kill(self, i):
+        """COVERAGE classification only (never used by an oracle): what the current leader believed about node i
+        when it was killed (the leader's private `_SyncObj__raftMatchIndex`), and whether a snapshot transfer to i
+        was under way (read off the wire)."""
+        s = self.sim
+        ls = [v for v in self.V if v in s.objs and v != i and s.objs[v]._isLeader()]
+        rec = {"node": i, "observer": i in self.O, "leader": ls[0] if len(ls) == 1 else None, "match": None,
+               "was_leader": i in self.V and s.objs[i]._isLeader(), "in_snapshot": False, "reconnect": None}
+        if rec["leader"] is not None:
+            rec["match"] = dict((n.id, m) for n, m in s.P(rec["leader"], "raftMatchIndex").items()).get(i)
+        last = None
+        for (a, b, m) in reversed(s.sent[-600:]):
+            if b == i and m.get("type") == "append_entries" and m.get("serialized") is not None:
+                last = m["serialized"]
+                break
+        inflight = any(m.get("serialized") is not None for c in s.chan if c[1] == i for m in s.chan[c])
+        rec["in_snapshot"] = bool(inflight or (last is not None and not last[2]))
+        self.kills.append(rec)
+        return rec
+
+    def _note_connect(self, a, b):
+        """COVERAGE only: at the moment a restarted node meets a leader again - does that leader still hold a
+        matchIndex for it that is beyond what the node has left?"""
+        s = self.sim
+        for x, y in ((a, b), (b, a)):
+            rec = self.pending.get(x)
+            if rec is None or y not in self.V or not s.objs[y]._isLeader():
+                continue
+            m = dict((n.id, v) for n, v in s.P(y, "raftMatchIndex").items()).get(x)
+            rec["reconnect"] = {"leader": y, "same_leader": y == rec["leader"], "match": m, "log_end": s.last_index(x)}
+            del self.pending[x]
 
     def _guard(self):
         """`__sendAppendEntries` ends its per-node loop by the wall clock only (`delta > appendEntriesPeriod`).  While
@@ -155,8 +232,20 @@ class Hist(object):
 
     def apply(self, e):
         s, k = self.sim, e[0]
+        if k in ("tick", "submit", "compact", "notice", "connect", "kill") and \
+                any(x not in s.objs for x in e[1:3] if isinstance(x, str) and x in self.A):
+            return                   # the node is dead (a shrunk history may have lost the restart): nothing happens
         if k == "connect":
+            self._note_connect(e[1], e[2])
             s.connect(e[1], e[2])
+        elif k == "kill":
+            rec = self._note_kill(e[1])
+            o = s.kill(e[1])
+            s.dead_all = getattr(s, "dead_all", []) + [o]
+            self.pending[e[1]] = rec
+        elif k == "restart":
+            if e[1] not in s.objs:
+                s.restart(e[1])
         elif k == "cut":
             s.cut(e[1], e[2])
         elif k == "notice":
@@ -180,7 +269,8 @@ class Hist(object):
             ids = among if among is not None else self.A
             for _ in range(e[1]):
                 for i in ids:
-                    s.tick(i, e[2])
+                    if i in s.objs:
+                        s.tick(i, e[2])
                 self.deliver_all(among)
         else:
             raise ValueError("unknown event %r" % (e,))
@@ -205,7 +295,8 @@ class Hist(object):
         self.ev("run", steps, dt, list(among) if among is not None else None)
 
     def leaders(self, among=None):
-        return [v for v in (among if among is not None else self.V) if v in self.V and self.sim.objs[v]._isLeader()]
+        return [v for v in (among if among is not None else self.V)
+                if v in self.V and v in self.sim.objs and self.sim.objs[v]._isLeader()]
 
     def leader(self, among=None):
         ls = self.leaders(among)
@@ -262,6 +353,17 @@ class Hist(object):
                 self.ev("notice", ins, out)
             if mode in ("noticed", "outside"):
                 self.ev("notice", out, ins)
+
+    def kill(self, i):
+        self.ev("kill", i)
+
+    def restart(self, i, reconnect=True):
+        """start the node again; its peers were never told about the crash (kill -9), the new process connects"""
+        self.ev("restart", i)
+        if reconnect:
+            for (a, b) in self.pairs:
+                if i in (a, b) and self.alive(a) and self.alive(b):
+                    self.ev("connect", a, b)
 
     def side(self, group):
         """group plus the observers that still have a live link into it"""
@@ -554,6 +656,138 @@ def d_old_long_vs_new_short(h, var):
     h.run(var["alone"], var["alone_dt"])            # every link is dead: nothing is delivered, everybody ticks
 
 
+def d_observer_restart(h, var):
+    """a READ-ONLY node loses everything (it has neither journal nor dump) and is started again: fully caught up
+    and confirmed / lagging / in the middle of a multi-chunk snapshot transfer; the leader stays, or leadership
+    changes around the restart.  Observers never vote and are never counted, so this is always safe."""
+    h.connect_all()
+    L = h.elect()
+    if L is None or not h.O:
+        return
+    O = h.O[var.get("which", 0) % len(h.O)]
+    h.notes["lagging"] = O
+    h.submit(L, "mid", 4)
+    h.run(6)
+    rest = [x for x in h.A if x != O]
+    when = var["when"]
+    if when in ("lagging", "snapshot"):
+        h.isolate([O], var["mode"])
+        h.submit(L, "mid", var["m"])
+        h.run(6, DT, rest)
+        if when == "snapshot" or var.get("compact"):
+            h.ev("compact", L)
+            h.run(4, DT, rest)
+    if when == "snapshot":
+        pr = (O, L)
+        h.ev("connect", pr[0], pr[1])
+        h.ev("tick", L, 0.25)                     # probe at the leader's log end ...
+        h.ev("deliver", L, O, 50)
+        h.ev("deliver", O, L, 50)                 # ... the rejection hint points below the compacted prefix
+        h.ev("hold", O, L)
+        h.ev("tick", L, 0.25)                     # the whole chunk burst is in the channel now
+        h.ev("deliver", L, O, var["chunks"])      # ... part of it arrives
+        h.ev("release", O, L)
+    h.kill(O)
+    if var.get("k"):
+        h.submit(L, "mid", var["k"])
+        h.run(4, DT, rest)
+        if var.get("compact_while_down"):
+            h.ev("compact", L)
+            h.run(3, DT, rest)
+    change = var.get("change", "none")
+    if change == "before":                        # leadership moves while the observer is dead
+        h.isolate([L], "silent")
+        h.elect([v for v in h.V if v != L], max_steps=120)
+    h.restart(O, reconnect=var.get("reconnect", True))
+    h.run(var.get("after", 2))
+    if change == "after":                         # ... or right after it came back
+        h.isolate([L], var.get("mode", "silent"))
+        l2 = h.elect([v for v in h.V if v != L], max_steps=120)
+        if l2 is not None:
+            h.submit(l2, "mid", 2)
+            h.run(4, DT, [x for x in h.A if x != L])
+    elif change == "partition":
+        grp = _minority_with(h, L, True)
+        h.isolate(grp, var.get("mode", "noticed"))
+        h.run(30, DT)
+    if var.get("twice"):
+        h.kill(O)
+        h.run(2)
+        h.restart(O)
+        h.run(2)
+
+
+def d_voter_restart_journal(h, var):
+    """voters with journal + dump file (the C06 setting) are killed and started again: they keep term, vote and log,
+    so this may happen at any time and together with any other fault"""
+    rng = h.rng
+    h.connect_all()
+    L = h.elect()
+    if L is None:
+        return
+    h.submit(L, "mid", 3)
+    h.run(5)
+    for rnd in range(var["rounds"]):
+        l = h.leader()
+        who = var["who"]
+        X = l if (who == "leader" and l is not None) else rng.choice([v for v in h.V if v != l])
+        h.notes["lagging"] = X
+        if var.get("compact") and rnd == 0:
+            h.ev("compact", X)
+            h.run(3)
+        if l is not None:
+            h.submit(l, "mid", rng.randrange(1, 4))
+            h.run(rng.randrange(0, 3))
+        h.kill(X)
+        others = [x for x in h.A if x != X]
+        l2 = h.elect([v for v in h.V if v != X], max_steps=100) if 2 * (len(h.V) - 1) > len(h.V) else None
+        if l2 is not None:
+            h.submit(l2, "mid", var["k"])
+            h.run(5, DT, others)
+            if var.get("compact_while_down"):
+                h.ev("compact", l2)
+                h.run(3, DT, others)
+        else:
+            h.run(var.get("away", 8), DT, others)
+        h.restart(X, reconnect=var.get("reconnect", True))
+        h.run(rng.randrange(1, 6))
+        if var.get("partition") and rnd == 0:
+            l3 = h.leader()
+            if l3 is not None:
+                h.isolate([l3], rng.choice(["silent", "noticed"]))
+                h.run(20, DT)
+
+
+def d_voter_restart_leader_stays(h, var):
+    """ONE follower F loses its volatile state (default conf: no journal, no dump -> comes back empty; or dump file
+    only, older than its last confirmed entry) at a moment when it has confirmed entries to the current leader.
+    The leader stays connected to the other voters the whole time, F is reconnected at once, and from the restart
+    on NO further fault happens: no election can succeed, nothing committed can be lost through what F forgot."""
+    h.connect_all()
+    L = h.elect()
+    if L is None:
+        return
+    F = [v for v in h.V if v != L][var.get("which", 0) % (len(h.V) - 1)]
+    h.notes["lagging"] = F
+    rest = [x for x in h.A if x != F]
+    h.submit(L, "mid", 3)
+    h.run(6)
+    if var["variant"] == "dump_only":
+        h.ev("compact", F)                        # F's dump file is written here ...
+        h.run(3)
+        h.submit(L, "mid", var.get("beyond", 3))  # ... and these are confirmed by F afterwards, in memory only
+        h.run(6)
+    h.kill(F)
+    if var["k"]:
+        h.submit(L, "mid", var["k"])
+    h.run(3, DT, rest)
+    if var.get("compact"):
+        h.ev("compact", L)
+        h.run(3, DT, rest)
+    h.restart(F, reconnect=True)
+    h.run(var.get("after", 0))
+
+
 def _deliver_recorded(h):
     """deliver everything that is not held, as explicit events (so that a replay does the same)"""
     s = h.sim
@@ -581,6 +815,7 @@ def d_random(h, var):
     w_hold = rng.choice([0.0, 0.03, 0.08])
     w_tick = rng.choice([0.1, 0.2, 0.3])
     w_part = rng.choice([0.02, 0.05])
+    w_restart = rng.choice([0.0, 0.02, 0.04]) if (h.O or h.p.get("journal")) else 0.0
     chans = [(a, b) for (a, b) in h.pairs] + [(b, a) for (a, b) in h.pairs]
     count = 0
     while count < n_ev:
@@ -637,6 +872,16 @@ def d_random(h, var):
             h.ev("compact", l if (l is not None and rng.random() < 0.5) else rng.choice(h.A))
             continue
         r -= w_compact
+        if r < w_restart:
+            # a read-only node may lose everything at any time; a voter only when it has a journal (and a dump)
+            cands = list(h.O) + (list(h.V) if h.p.get("journal") else [])
+            if cands:
+                x = rng.choice(cands)
+                h.kill(x)
+                h.run(rng.choice([0, 0, 1, 4, 12]))
+                h.restart(x, reconnect=rng.random() < 0.7)
+            continue
+        r -= w_restart
         if r < w_hold:
             if h.hold and rng.random() < 0.5:
                 c = rng.choice(sorted(h.hold))
@@ -665,7 +910,9 @@ def d_random(h, var):
 
 GEN = {"partition": d_partition, "midburst": d_midburst, "stale_leader": d_stale_leader,
        "lag_snapshot": d_lag_snapshot, "uneven": d_uneven, "compactions": d_compactions,
-       "term_inflation": d_term_inflation, "random": d_random, "old_long_vs_new_short": d_old_long_vs_new_short}
+       "term_inflation": d_term_inflation, "random": d_random, "old_long_vs_new_short": d_old_long_vs_new_short,
+       "observer_restart": d_observer_restart, "voter_restart_journal": d_voter_restart_journal,
+       "voter_restart_leader_stays": d_voter_restart_leader_stays}
 
 
 # ------------------------------------------------------------------------------------------------
@@ -728,6 +975,9 @@ def scenario(repo, p, workdir=None):
             h.apply(e)
     else:
         GEN[p["kind"]](h, p.get("var") or {})
+    for i in h.A:                      # (a shrunk history may have lost a restart: nobody stays dead into the heal)
+        if i not in s.objs:
+            h.apply(["restart", i])
     cov = {"kind": p["kind"], "nv": p["nv"], "no": p["no"], "fault_events": len(h.events)}
 
     # ---- state at heal time (observation only) ----
@@ -931,6 +1181,27 @@ def scenario(repo, p, workdir=None):
                 "final_applied": s.objs[ref].raftLastApplied, "final_commands": len(s.objs[ref].log),
                 "t_leader_bucket": _bucket(t_leader, unit) if t_leader is not None else ">40",
                 "t_sync_bucket": _bucket(t_sync, unit) if t_sync is not None else ">40"})
+    # restarts (classification for coverage only, see Hist._note_kill / _note_connect)
+    rs = {"observer_kills": 0, "observer_confirmed_leader_unchanged": 0, "observer_in_snapshot_transfer": 0,
+          "voter_kills_journaled": 0, "voter_kills_journaled_leader": 0, "voter_stateless": 0,
+          "voter_stateless_match_beyond_log_end": 0}
+    for rec in h.kills:
+        rc = rec["reconnect"]
+        if rec["observer"]:
+            rs["observer_kills"] += 1
+            rs["observer_in_snapshot_transfer"] += 1 if rec["in_snapshot"] else 0
+            if (rec["match"] or 0) > 1 and rc is not None and rc["same_leader"]:
+                rs["observer_confirmed_leader_unchanged"] += 1
+        elif p.get("journal"):
+            rs["voter_kills_journaled"] += 1
+            rs["voter_kills_journaled_leader"] += 1 if rec["was_leader"] else 0
+        else:
+            rs["voter_stateless"] += 1
+            if rc is not None and rc["same_leader"] and (rc["match"] or 0) > rc["log_end"]:
+                rs["voter_stateless_match_beyond_log_end"] += 1
+    cov["restarts"] = rs
+    cov["variant"] = (p.get("var") or {}).get("variant")
+    h.close()
     return {"viol": viol, "events": h.events, "cov": cov,
             "resolved": {"early": early_node, "post": post_node, "down": list(h.down)}}
 
@@ -1028,6 +1299,9 @@ def draw_conf(rng, kind=None):
         c["appendEntriesBatchSizeBytes"] = rng.choice([100, 200, 400])
     if kind == "old_long_vs_new_short":
         c["leaderFallbackTimeout"] = rng.choice([1.0, 2.0])          # stale leaders must step down while alone
+    if kind == "voter_restart_leader_stays":
+        c["logCompactionMinEntries"] = 100000                        # compaction only where the history says so
+        c["logCompactionMinTime"] = 100000
     return c
 
 
@@ -1090,20 +1364,60 @@ def directed_params(rng):
                             "post_k": rng.randrange(4), "heal_all": True, "dumpfile": False,
                             "down": "notes", "down_mode": ["silent", "noticed"][(k // 2) % 2], "down_ticks": k % 3 != 0,
                             "down_fresh": True})
+    # restarts.  A stateless restart of a VOTER appears only in `voter_restart_leader_stays` (never in random histories,
+    # never followed by another fault): with a later leader change the replicas could legitimately differ.
+    k = 0
+    for nv in (3, 5):
+        for no in (1, 2):
+            for when in ("confirmed", "lagging", "snapshot"):
+                k += 1
+                conf = draw_conf(rng, "lag_snapshot" if when == "snapshot" else None)
+                out.append({"kind": "observer_restart", "nv": nv, "no": no, "conf": conf,
+                            "var": {"when": when, "which": k, "mode": modes[k % 4], "m": rng.randrange(6, 12),
+                                    "chunks": rng.randrange(1, 4), "k": [0, 1, 3][k % 3], "compact": k % 2 == 0,
+                                    "compact_while_down": k % 4 == 1, "change": ["none", "none", "after", "before", "partition"][k % 5],
+                                    "reconnect": k % 6 != 5, "after": rng.randrange(0, 5), "twice": k % 7 == 3},
+                            "seed": rng.randrange(10 ** 6), "post": ["leader", "follower", "observer"][k % 3], "early": "lagging",
+                            "post_k": rng.randrange(4), "heal_all": k % 2 == 0, "dumpfile": False, "down": "none"})
+    k = 0
+    for nv in (3, 5):
+        for who in ("follower", "leader"):
+            for rep in range(2):
+                k += 1
+                out.append({"kind": "voter_restart_journal", "nv": nv, "no": [0, 1, 2, 1][k % 4], "conf": draw_conf(rng, None),
+                            "var": {"who": who, "rounds": 1 + k % 2, "k": [0, 1, 3, 6][k % 4], "compact": k % 2 == 0,
+                                    "compact_while_down": k % 3 == 0, "reconnect": k % 5 != 4, "partition": k % 4 == 2, "away": 8},
+                            "seed": rng.randrange(10 ** 6), "post": ["leader", "follower", "observer"][k % 3], "early": "lagging",
+                            "post_k": rng.randrange(4), "heal_all": k % 2 == 0, "dumpfile": False, "journal": True,
+                            "down": ["none", "none", "other"][k % 3], "down_mode": ["noticed", "silent"][k % 2]})
+    k = 0
+    for variant in ("empty", "dump_only"):
+        for kk in (0, 1, 3):
+            for compact in (False, True):
+                k += 1
+                conf = draw_conf(rng, "voter_restart_leader_stays")
+                out.append({"kind": "voter_restart_leader_stays", "nv": [3, 5][k % 2], "no": [0, 1, 2][k % 3], "conf": conf,
+                            "var": {"variant": variant, "k": kk, "compact": compact, "which": rng.randrange(4),
+                                    "beyond": rng.randrange(2, 5), "after": [0, 2][k % 2]},
+                            "seed": rng.randrange(10 ** 6), "post": ["leader", "follower", "observer"][k % 3], "early": "lagging",
+                            "post_k": rng.randrange(4), "heal_all": False, "dumpfile": variant == "dump_only", "down": "none"})
     return out
 
 
 def random_params(rng, n):
     out = []
     kinds = ["random", "random", "random", "lag_snapshot", "stale_leader", "partition", "midburst", "uneven",
-             "compactions", "term_inflation", "old_long_vs_new_short"]
+             "compactions", "term_inflation", "old_long_vs_new_short", "observer_restart", "voter_restart_journal",
+             "voter_restart_leader_stays"]
     modes = ["noticed", "silent", "inside", "outside"]
     for _ in range(n):
         kind = rng.choice(kinds)
         nv = rng.choice([2, 3, 3, 4, 5, 5])
-        if kind == "old_long_vs_new_short":
+        if kind in ("old_long_vs_new_short", "voter_restart_journal", "voter_restart_leader_stays"):
             nv = rng.choice([3, 4, 5])
         no = rng.choice([0, 0, 1, 1, 2])
+        if kind == "observer_restart":
+            no = rng.choice([1, 1, 2])
         if kind == "lag_snapshot" and nv == 2:
             no = max(no, 1)
         if kind == "random":
@@ -1127,6 +1441,19 @@ def random_params(rng, n):
             var = {"rounds": rng.randrange(3, 12), "held": rng.randrange(1, 4)}
         elif kind == "compactions":
             var = {"rounds": rng.randrange(3, 10), "victim": rng.randrange(8)}
+        elif kind == "observer_restart":
+            var = {"when": rng.choice(["confirmed", "confirmed", "lagging", "snapshot", "snapshot"]), "which": rng.randrange(2),
+                   "mode": rng.choice(modes), "m": rng.randrange(4, 14), "chunks": rng.randrange(0, 6), "k": rng.choice([0, 1, 3, 6]),
+                   "compact": rng.random() < 0.5, "compact_while_down": rng.random() < 0.4,
+                   "change": rng.choice(["none", "none", "none", "after", "before", "partition"]),
+                   "reconnect": rng.random() < 0.8, "after": rng.randrange(0, 6), "twice": rng.random() < 0.15}
+        elif kind == "voter_restart_journal":
+            var = {"who": rng.choice(["follower", "leader"]), "rounds": rng.randrange(1, 4), "k": rng.choice([0, 1, 3, 6]),
+                   "compact": rng.random() < 0.5, "compact_while_down": rng.random() < 0.4, "reconnect": rng.random() < 0.8,
+                   "partition": rng.random() < 0.4, "away": rng.choice([2, 8, 30])}
+        elif kind == "voter_restart_leader_stays":
+            var = {"variant": rng.choice(["empty", "dump_only"]), "k": rng.choice([0, 0, 1, 2, 3, 5]), "compact": rng.random() < 0.4,
+                   "which": rng.randrange(4), "beyond": rng.randrange(1, 6), "after": rng.randrange(0, 4)}
         elif kind == "old_long_vs_new_short":
             var = {"orient": rng.choice(["old_long", "old_long", "old_short"]), "mode2": rng.choice(["silent", "noticed"]),
                    "alone": rng.choice([20, 40, 80]), "alone_dt": rng.choice([0.125, 0.25, 0.5]), "third": rng.randrange(4),
@@ -1136,15 +1463,22 @@ def random_params(rng, n):
                    "rounds": rng.randrange(2, 10), "late_notice": rng.random() < 0.4}
         if kind == "old_long_vs_new_short":
             down = "notes" if rng.random() < 0.85 else "none"
+        elif kind == "voter_restart_leader_stays":
+            down = "none"                               # no fault at all after the restart
         else:
             down = rng.choice(["lagging", "stale", "other", "max"]) if (nv > 2 and rng.random() < 0.36) else "none"
         if down == "none" and no and rng.random() < 0.05:
             down = "obs"                                # only a read-only node stays away
+        journal = kind == "voter_restart_journal" or (kind == "random" and rng.random() < 0.2)
+        if kind == "voter_restart_leader_stays":
+            dumpfile, heal_all = var["variant"] == "dump_only", False
+        else:
+            dumpfile, heal_all = (not journal) and rng.random() < 0.15, rng.random() < 0.7
         out.append({"kind": kind, "nv": nv, "no": no, "conf": draw_conf(rng, kind), "var": var,
                     "seed": rng.randrange(10 ** 6), "post": rng.choice(["leader", "follower", "follower", "observer"]),
                     "early": rng.choice(["lagging", "lagging", "follower", "observer", "leader"]),
-                    "post_k": rng.randrange(4), "heal_all": rng.random() < 0.7,
-                    "dumpfile": rng.random() < 0.15,
+                    "post_k": rng.randrange(4), "heal_all": heal_all,
+                    "dumpfile": dumpfile, "journal": journal,
                     "down": down, "down_mode": rng.choice(["noticed", "silent"]), "down_ticks": rng.random() < 0.6,
                     "down_obs": no > 0 and rng.random() < 0.3, "down_fresh": rng.random() < 0.7})
     return out
@@ -1265,7 +1599,7 @@ def run(ctx):
            "compactions": 0, "corpus_histories": 0, "planned": len(ps), "errors": 0,
            "violating_histories": {}, "early_command_outcome": {},
            "healed_with_minority_down": {"histories": 0, "by_kind": {}}, "connected_log_shapes_at_heal": {},
-           "old_long_vs_new_short": {}}
+           "old_long_vs_new_short": {}, "restarts": {}}
     distinct = set()
     viols, sigs = [], set()
     errors = []
@@ -1300,6 +1634,12 @@ def run(ctx):
                     _inc(cov["old_long_vs_new_short"], k_)
                     if c["down_voters"]:
                         _inc(cov["old_long_vs_new_short"], k_ + "_bare_majority_%d" % c["nv"])
+        for k_, n_ in c["restarts"].items():
+            if n_:
+                _inc(cov["restarts"], k_, n_)
+                _inc(cov["restarts"], "histories_with_" + k_)
+                if k_ == "voter_stateless_match_beyond_log_end":
+                    _inc(cov["restarts"], "leader_stays_%s_match_beyond_log_end" % c["variant"])
         _inc(cov["early_command_outcome"], "%s/%s" % (c["early"], "applied" if c["early_applied"] else "not-applied"))
         _inc(cov["t_leader_in_raftMaxTimeouts"], c["t_leader_bucket"])
         _inc(cov["t_sync_in_raftMaxTimeouts"], c["t_sync_bucket"])
@@ -1354,6 +1694,10 @@ def run(ctx):
             vv["replay"] = {"params": q}
             viols.append(vv)
 
+    # causes before consequences (a replica that stays behind also loses its callbacks)
+    order = ["convergence:no-single-leader", "convergence:replica-stays-behind", "convergence:states-differ",
+             "tick:", "convergence:post-heal"]
+    viols.sort(key=lambda v: min([i for i, pre in enumerate(order) if v["signature"].startswith(pre)] or [9]))
     samples = [dict((k, v) for k, v in r["p"].items() if k != "events") for r in results[:1]] + \
               [{"params": dict((k, v) for k, v in r["p"].items() if k != "events"), "observed": r["cov"]}
                for r in results if not r.get("error") and r["cov"].get("snapshots_completed_after_heal")][:1]
@@ -1386,6 +1730,14 @@ def run(ctx):
         floors.append("healed with a minority down: %d (noticed %d, silent %d)" % (md["histories"], md.get("noticed", 0), md.get("silent", 0)))
     if len(md["by_kind"]) < 8:
         floors.append("kinds healed with a minority down: %s" % sorted(md["by_kind"]))
+    rs = cov["restarts"]
+    for k_, q_, t_ in (("histories_with_observer_confirmed_leader_unchanged", 8, 200),
+                       ("histories_with_observer_in_snapshot_transfer", 4, 80),
+                       ("histories_with_voter_kills_journaled", 8, 200),
+                       ("leader_stays_empty_match_beyond_log_end", 5, 80),
+                       ("leader_stays_dump_only_match_beyond_log_end", 5, 80)):
+        if rs.get(k_, 0) < ctx.scale(q_, t_):
+            floors.append("restarts: %s = %d" % (k_, rs.get(k_, 0)))
     ol = cov["old_long_vs_new_short"]
     for k_ in ("longer_older_vs_shorter_newer_bare_majority_3", "longer_older_vs_shorter_newer_bare_majority_5",
                "shorter_older_vs_longer_newer_bare_majority_3", "shorter_older_vs_longer_newer_bare_majority_5"):
